@@ -606,6 +606,103 @@ def c12d_facts(repo, sk, facts, notes):
 # ===== C12d block end =====
 
 
+# ===== C17 block begin (logger / sink registries, removal protocol, spinlock; add-only, owned by props/c17.py) =====
+def c17_facts(repo, sk, facts, notes):
+    inc = os.path.join(repo, 'include', 'quill')
+    global MACRO_ARGS
+    MACRO_ARGS = True
+    try:
+        def grab(hdr, inst, flt, prefix, methods):
+            p = os.path.join(inc, hdr)
+            docs = run_clang(inst, flt, repo)
+            for m in methods:
+                sk[prefix + m] = method_skeleton(docs, p, m) or []
+            return docs
+        lm_docs = grab('core/LoggerManager.h', '#include "quill/core/LoggerManager.h"\n', 'LoggerManager', 'c17_lm_',
+                       ('get_logger', 'create_or_get_logger', 'remove_logger', 'cleanup_invalidated_loggers', '_insert_logger',
+                        '_find_logger', 'get_number_of_loggers', 'get_all_loggers'))
+        sm_docs = grab('core/SinkManager.h', '#include "quill/core/SinkManager.h"\n', 'SinkManager', 'c17_sm_',
+                       ('create_or_get_sink', 'cleanup_unused_sinks', '_insert_sink', '_find_sink'))
+        grab('core/Spinlock.h', '#include "quill/core/Spinlock.h"\n', 'Spinlock', 'c17_spin_', ('lock', 'unlock'))
+        grab('Frontend.h', '#include "quill/Frontend.h"\n', 'FrontendImpl', 'c17_fe_', ('remove_logger_blocking', 'remove_logger'))
+        grab('backend/BackendWorker.h', '#include "quill/backend/BackendWorker.h"\n', 'BackendWorker', 'c17_be', ('_cleanup_invalidated_loggers',))
+        lb_docs = grab('core/LoggerBase.h', '#include "quill/core/LoggerBase.h"\n', 'LoggerBase', 'c17_lb_', ('mark_invalid', 'is_valid_logger'))
+    finally:
+        MACRO_ARGS = False
+    st = lambda k: [l.strip() for l in sk.get(k, [])]
+    # ---- the guard: every frontend queue (both kinds) and every transit buffer, over a refreshed cache
+    g = st('be_check_frontend_queues_and_cached_transit_events_empty')
+    in_for = False; qs = set(); tb = False
+    for l in sk.get('be_check_frontend_queues_and_cached_transit_events_empty', []):
+        if l.startswith('FOR') and '_active_thread_contexts_cache' in l: in_for = True; continue
+        if in_for and not l.startswith(' '): in_for = False
+        if in_for:
+            m = re.match(r'\s*EXPR all_empty &= thread_context->get_spsc_queue_union\(\)\.(\w+)\.empty\(\)$', l)
+            if m: qs.add(m.group(1))
+            if re.match(r'\s*EXPR all_empty &= thread_context->_transit_event_buffer->empty\(\)$', l): tb = True
+    shape = bool(g) and g[0] == 'EXPR _update_active_thread_contexts_cache()' and g[-1] == 'RET return all_empty' and 'DECL bool all_empty{true};' in g
+    facts['c17_guard_queues'] = shape and qs == {'unbounded_spsc_queue', 'bounded_spsc_queue'}
+    facts['c17_guard_tbufs'] = shape and tb
+    # ---- the guard is evaluated for each invalid logger, and it is the backend's emptiness check
+    cl = sk.get('c17_lm_cleanup_invalidated_loggers', [])
+    def idx(lines, rx, start=0):
+        for i in range(start, len(lines)):
+            if re.match(rx, lines[i]): return i
+        return None
+    i_for = idx(cl, r'  FOR for \(auto it = _loggers\.begin\(\)')
+    ok = False
+    if i_for is not None:
+        i_inv = idx(cl, r'    IF !it->get\(\)->is_valid_logger\(\)$', i_for)
+        if i_inv is not None and i_inv == i_for + 1:
+            i_chk = idx(cl, r'      IF !check_queues_empty\(\)$', i_inv)
+            i_else = idx(cl, r'      ELSE$', i_inv)
+            i_erase = idx(cl, r'        EXPR it = _loggers\.erase\(it\)$', i_inv)
+            erases = [l for l in cl if 'erase' in l]
+            ok = (i_chk == i_inv + 1 and i_else is not None and i_erase is not None and i_else < i_erase and len(erases) == 1
+                  and idx(cl, r'        EXPR removed_loggers\.push_back\(it->get\(\)->get_logger_name\(\)\)$', i_else) is not None)
+    be = st('c17_be_cleanup_invalidated_loggers')
+    lam = bool(be) and re.match(r'DECL std::vector<std::string> const removed_loggers = _logger_manager\.cleanup_invalidated_loggers\( ?\[this\]\(\) ?\{ ?return _check_frontend_queues_and_cached_transit_events_empty\(\); ?\}\);$', be[0]) is not None
+    facts['c17_recheck_per_logger'] = bool(ok and lam)
+    # ---- order in the backend: erase (inside LoggerManager) -> cleanup_unused_sinks -> flag store; the flag is stored nowhere else
+    # (two facts: the flag store comes after the erase and is the only one; the pruning comes after the erase and before the flag store)
+    i_call = idx(be, r'DECL std::vector<std::string> const removed_loggers = _logger_manager\.cleanup_invalidated_loggers\(')
+    i_if = idx(be, r'IF !removed_loggers\.empty\(\)$')
+    i_prune = idx(be, r'EXPR _sink_manager\.cleanup_unused_sinks\(\)$')
+    i_store = idx(be, r'EXPR search_it->second->store\(true\)$')
+    src = open(os.path.join(inc, 'backend', 'BackendWorker.h'), 'rb').read().decode('utf8', 'replace')
+    src_nc = re.sub(r'/\*.*?\*/', ' ', re.sub(r'//[^\n]*', ' ', src), flags=re.S)
+    uses = re.findall(r'_logger_removal_flags\s*\.\s*(\w+)', src_nc)
+    pe = st('be_populate_transit_event_from_frontend_queue')
+    emplace_on_read = any(re.match(r'EXPR _logger_removal_flags\.emplace\(std::string\{logger_name\}, reinterpret_cast<std::atomic<bool>\*>\(logger_removal_flag_tmp\)\)$', l) for l in pe)
+    no_store_on_read = not any(('logger_removal' in l and 'store' in l) for l in pe)
+    facts['c17_prune_after_erase'] = bool(None not in (i_call, i_if, i_prune) and i_call < i_if < i_prune and (i_store is None or i_prune < i_store))
+    facts['c17_flag_after_erase'] = bool(None not in (i_call, i_if, i_store) and i_call < i_if < i_store
+                                         and sorted(uses) == ['emplace', 'end', 'erase', 'find'] and emplace_on_read and no_store_on_read
+                                         and len(re.findall(r'second\s*->\s*store\s*\(', src_nc)) == 1)
+    # ---- frontend: request enqueued, then invalidation, then the wait on the flag
+    rb = st('c17_fe_remove_logger_blocking')
+    i_req = idx(rb, r'WHILE !logger->template log_statement<false, false>\( ?LogLevel::None, &macro_metadata, reinterpret_cast<uintptr_t>\(logger_removal_complete_ptr\), logger->get_logger_name\(\)\)$')
+    i_inv = idx(rb, r'EXPR detail::LoggerManager::instance\(\)\.remove_logger\(logger\)$')
+    i_wait = idx(rb, r'WHILE !logger_removal_complete\.load\(\)$')
+    facts['c17_request_before_invalidate'] = bool(None not in (i_req, i_inv, i_wait) and i_req < i_inv < i_wait and
+                                                 any('MacroMetadata::Event::LoggerRemovalRequest' in l for l in rb[:i_req]))
+    gl = st('c17_lm_get_logger')
+    facts['c17_get_checks_valid'] = bool(gl) and gl[-1] == 'RET return logger && logger->is_valid_logger() ? logger : nullptr'
+    # ---- ownership: the logger vector owns the loggers, a logger owns shared_ptrs to its sinks, the sink table holds weak_ptrs
+    facts['c17_sink_table_weak'] = field_type(sm_docs, 'sink_ptr').replace(' ', '') == 'std::weak_ptr<Sink>'
+    facts['c17_logger_shares_sinks'] = field_type(lb_docs, 'sinks').replace(' ', '') == 'std::vector<std::shared_ptr<Sink>>'
+    facts['c17_registry_owns_loggers'] = field_type(lm_docs, '_loggers').replace(' ', '') == 'std::vector<std::unique_ptr<LoggerBase>>'
+    # ---- memory orders
+    facts['c17_spin_spin_load'] = one_mo(mo_of(sk['c17_spin_lock'], '_flag', 'load'), 'Spinlock::lock load', notes)
+    facts['c17_spin_exchange'] = one_mo(mo_of(sk['c17_spin_lock'], '_flag', 'exchange'), 'Spinlock::lock exchange', notes)
+    facts['c17_spin_unlock_store'] = one_mo(mo_of(sk['c17_spin_unlock'], '_flag', 'store'), 'Spinlock::unlock store', notes)
+    facts['c17_valid_store'] = one_mo(mo_of(sk['c17_lb_mark_invalid'], 'valid', 'store'), 'mark_invalid store', notes)
+    facts['c17_valid_load'] = one_mo(mo_of(sk['c17_lb_is_valid_logger'], 'valid', 'load'), 'is_valid_logger load', notes)
+    facts['c17_inv_flag_set'] = one_mo(mo_of(sk['c17_lm_remove_logger'], '_has_invalidated_loggers', 'store'), 'remove_logger flag store', notes)
+    facts['c17_inv_flag_load'] = one_mo(mo_of(sk['c17_lm_cleanup_invalidated_loggers'], '_has_invalidated_loggers', 'load'), 'cleanup flag load', notes)
+# ===== C17 block end =====
+
+
 def main():
     repo = REPO; out = os.path.join(os.path.dirname(os.path.abspath(__file__)), '..', 'coq', 'gen', 'SrcFacts.v')
     a = sys.argv[1:]
@@ -619,6 +716,7 @@ def main():
     uq_facts(repo, sk, facts, notes)   # C02 block
     failc_facts(repo, sk, facts, notes)   # C08 block
     c12d_facts(repo, sk, facts, notes)   # C12d block
+    c17_facts(repo, sk, facts, notes)   # C17 block
     txt = emit(sk, facts, notes, os.path.normpath(out))
     if dump:
         for k in sorted(sk):
